@@ -32,9 +32,12 @@
 
     batch.mw <chain> <request>      the loop around a batch-item middleware chain (model: `Batch.loopG`)
         chain := <stage> {',' <stage>}           in registration order (outermost first)
-        stage := 'T' | ('M' | 'R' | 'E') [<idx> {'.' <idx>}]
+        stage := 'T' | ('M' | 'R' | 'E' | 'P' | 'Q') [<idx> {'.' <idx>}]
                  T transparent; for the items listed: M answers success whatever the rest of the chain returned,
-                 R refuses without calling next (returns (nil, err)), E calls next and returns its item with an error
+                 R refuses without calling next (returns (nil, err)), E calls next and returns its item with an error,
+                 P panics without calling next, Q calls next and then panics (a panic unwinds through the stages
+                 around it — M cannot mask it — to the last-resort recovery of executeItemWithMiddleware: the item
+                 is answered failed echoing operation and id, the placeholder is cleared)
       → ok <ver> <count> <ritems> entered=<calls>     entered: the items handed to the chain, in order
 
     place.run <mode> <request> {' | ' <request>}
@@ -157,24 +160,31 @@ private def parseStage (s : String) : Option MwStage :=
   match s.toList with
   | [] => none
   | k :: rest =>
-    if k = 'T' ∨ k = 'M' ∨ k = 'R' ∨ k = 'E' then
+    if k = 'T' ∨ k = 'M' ∨ k = 'R' ∨ k = 'E' ∨ k = 'P' ∨ k = 'Q' then
       if rest.isEmpty then some { kind := k, set := [] }
       else ((String.ofList rest).splitOn ".").mapM String.toNat? |>.map fun l => { kind := k, set := l }
     else none
 
 /-- `executeItemWithMiddleware` with the chain installed, as an item executor for `loopG`. -/
 private def chainItem (srv : Srv) (chain : List MwStage) (i : Nat) (ph : Val) (it : Batch.Item) : GItemOut :=
-  let rec go : List MwStage → GItemOut
-    | [] => plainItem srv i ph it
+  -- the Bool: a panic is unwinding (raised by a stage; no stage around it can mask or rewrite the outcome)
+  let failedItem : GItemOut := { ri := { op := it.op, id := it.id, failed := true, reason := 0 }, ph := 0 }
+  let rec go : List MwStage → GItemOut × Bool
+    | [] => (plainItem srv i ph it, false)
     | st :: rest =>
       if st.set.contains i then
-        if st.kind = 'R' then { ri := { op := it.op, id := it.id, failed := true, reason := 0 }, ph := 0 }
-        else if st.kind = 'M' then
-          { ri := { op := it.op, id := it.id, failed := false, reason := 0 }, ph := (go rest).ph }
-        else if st.kind = 'E' then { ri := { (go rest).ri with failed := true }, ph := 0 }
-        else go rest
+        if st.kind = 'R' then (failedItem, false)
+        else if st.kind = 'P' then (failedItem, true)
+        else
+          let x := go rest
+          if x.2 then x
+          else if st.kind = 'M' then
+            ({ ri := { op := it.op, id := it.id, failed := false, reason := 0 }, ph := x.1.ph }, false)
+          else if st.kind = 'E' then ({ ri := { x.1.ri with failed := true }, ph := 0 }, false)
+          else if st.kind = 'Q' then (failedItem, true)
+          else x
       else go rest
-  go chain
+  (go chain).1
 
 def mwRun (chain : List MwStage) (srv : Srv) (req : Req) : String :=
   if Accepted srv req then
